@@ -183,3 +183,14 @@ Proof.
   rewrite Eo in E. rewrite En in Hn. destruct (m_run (m_init c) ts) as [m o] eqn:R. cbn [fst snd] in *.
   exact (C03_later_call_never_older c ts m o o1 j ret1 rec1 o2 ret2 rec2 o3 Hs Hts R Hn E).
 Qed.
+
+(* the theorems of this file hold for every record function (class RecFun); an instance other than
+   [rec_of], run by the correspondence as `shmc`: publications whose as-of instant and bound never
+   change (Machine.rec_of_c - what the daemon writes while chronyd is silent).  The second publication
+   differs from the first in status and void-after only, and the client's next call returns it. *)
+Example C03_unchanged_measurement_example :
+  let ts := repeat TW 11 ++ [TNewReader] ++ repeat (TR 0 None) 11 ++ repeat TW 11 ++ repeat (TR 0 None) 11 in
+  filter (fun x => match x with ORet _ _ _ => true | _ => false end) (snd (m_run_const (m_init fixed_cfg) ts)) =
+    [ORet 0 RetFresh (rec_of_c 7 1); ORet 0 RetFresh (rec_of_c 7 2)] /\
+  rec_of_c 7 1 = [7; 8; 1002; 1003; 9; 1005; 1]%Z /\ rec_of_c 7 2 = [7; 8; 2002; 2003; 9; 2005; 2]%Z.
+Proof. vm_compute. repeat split; reflexivity. Qed.
